@@ -9,6 +9,7 @@ mod c12;
 mod c14;
 mod c15;
 mod c16;
+mod c17;
 mod c18;
 mod c19;
 mod c20;
@@ -36,6 +37,7 @@ fn dispatch(case: &Sexp) -> Option<Sexp> {
             c15::run(head, args)
         }
         "threads" => c18::run(head, args),
+        "list-exec" | "list-ffi" | "list-name" | "list-history" => c17::run(head, args),
         "panic-prog" | "panic-2threads" => c19::run(head, args, case),
         "ffi-history" | "ffi-2threads" | "cstring-history" => c20::run(head, args),
         "exec" => lang::run_exec(args),
